@@ -169,6 +169,8 @@ class Gen:
         if ctx.fn_ret.get("kind") == "option" and ctx.loop is None and r.random() < 0.15:
             # the ? operator: propagate None out of the enclosing function
             return {"k": "try", "e": self.expr(ctx, opt(T(ty)), d - 1)}
+        if ty in ("u8", "u16", "u32", "felt", "i16", "u64") and r.random() < 0.06:
+            return self.array_probe(ctx, ty, d)
         c = r.random()
         if c < 0.12 and vs:
             return {"k": "var", "n": r.choice(vs)[0]}
@@ -259,6 +261,44 @@ class Gen:
             if idx:
                 return {"k": "field", "i": r.choice(idx) + 1, "e": self.expr(ctx, s, d - 1)}
         return {"k": "block", "ss": [], "tail": self.int_expr(ctx, ty, d - 1)}
+
+    def array_probe(self, ctx, ty, d):
+        """A block that builds a local array, pops / appends / indexes it and yields one of the observed elements."""
+        r = self.r
+        et = T(ty)
+        a = self.fresh(ctx)
+        n0 = r.choice([2, 3, 4])
+        ss = [{"k": "let", "n": a, "mut": True, "ty": {"k": "array", "t": et},
+               "e": {"k": "arr", "ety": et, "es": [self.int_expr(ctx, ty, min(d - 1, 1)) for _ in range(n0)]}}]
+        inner = Ctx(ctx.fn_ret, ctx.vars + [(a, {"k": "array", "t": et}, True)], ctx.helpers)
+        inner.loop = ctx.loop
+        if r.random() < 0.4:
+            ss.append({"k": "expr", "e": {"k": "append", "a": a, "e": self.int_expr(ctx, ty, 0)}})
+        lit_idx = lambda: {"k": "lit", "v": r.choice([0, 1, 1, 2, 2, 3]), "ty": "u32"}
+        form = r.choice(["unwrap", "unwrap2", "match", "plain"])
+        if form in ("unwrap", "unwrap2"):
+            p1 = self.fresh(ctx)
+            ss.append({"k": "let", "n": p1, "mut": False, "ty": et,
+                       "e": {"k": "unwrap", "msg": "Option::unwrap failed.", "e": {"k": "apop", "a": a, "ety": et}}})
+            if r.random() < 0.4:
+                ss.append({"k": "expr", "e": {"k": "append", "a": a, "e": self.int_expr(ctx, ty, 0)}})
+            if form == "unwrap2":
+                p2 = self.fresh(ctx)
+                ss.append({"k": "let", "n": p2, "mut": False, "ty": et,
+                           "e": {"k": "unwrap", "msg": "Option::unwrap failed.", "e": {"k": "apop", "a": a, "ety": et}}})
+                tail = r.choice([{"k": "var", "n": p2}, {"k": "aat", "a": a, "i": lit_idx()}])
+            else:
+                tail = r.choice([{"k": "aat", "a": a, "i": lit_idx()}, {"k": "aat", "a": a, "i": lit_idx()}, {"k": "var", "n": p1}])
+            return {"k": "block", "ss": ss, "tail": tail}
+        if form == "match":
+            x = self.fresh(ctx)
+            some_body = r.choice([{"k": "aat", "a": a, "i": lit_idx()},
+                                  {"k": "unwrap", "msg": "Option::unwrap failed.", "e": {"k": "apop", "a": a, "ety": et}},
+                                  {"k": "var", "n": x}])
+            tail = {"k": "match", "ety": opt(et), "e": {"k": "apop", "a": a, "ety": et},
+                    "arms": [{"n": x, "body": some_body}, {"n": "", "body": self.lit(ty)}]}
+            return {"k": "block", "ss": ss, "tail": tail}
+        return {"k": "block", "ss": ss, "tail": {"k": "aat", "a": a, "i": lit_idx()}}
 
     def bool_expr(self, ctx, d):
         r = self.r
